@@ -415,6 +415,7 @@ struct MemoryAccountantAllocationNode
 MemoryAccountantAllocationNode* MemoryAccountant::createNewAccountantAllocationNode(size_t size, MemoryAccountantAllocationNode* next) const
 {
     MemoryAccountantAllocationNode* node = (MemoryAccountantAllocationNode*) (void*) allocator_->alloc_memory(sizeof(MemoryAccountantAllocationNode), __FILE__, __LINE__);
+    if (node == NULLPTR) return NULLPTR;
     node->size_ = size;
     node->allocations_ = 0;
     node->deallocations_ = 0;
@@ -505,22 +506,29 @@ MemoryAccountantAllocationNode* MemoryAccountant::findOrCreateNodeOfSize(size_t 
     if (useCacheSizes_)
       return findNodeOfSize(size);
 
-    if (head_ && head_->size_ > size)
-        head_ = createNewAccountantAllocationNode(size, head_);
+    /* a node that cannot be allocated leaves the list as it is: NULL is returned and the caller skips the statistics */
+    if (head_ == NULLPTR || head_->size_ > size) {
+        MemoryAccountantAllocationNode* newHead = createNewAccountantAllocationNode(size, head_);
+        if (newHead) head_ = newHead;
+        return newHead;
+    }
 
     for (MemoryAccountantAllocationNode* node = head_; node; node = node->next_) {
         if (node->size_ == size)
             return node;
-        if (node->next_ == NULLPTR || node->next_->size_ > size)
-            node->next_ = createNewAccountantAllocationNode(size, node->next_);
+        if (node->next_ == NULLPTR || node->next_->size_ > size) {
+            MemoryAccountantAllocationNode* newNode = createNewAccountantAllocationNode(size, node->next_);
+            if (newNode) node->next_ = newNode;
+            return newNode;
+        }
     }
-    head_ = createNewAccountantAllocationNode(size, head_);
-    return head_;
+    return NULLPTR;
 }
 
 void MemoryAccountant::alloc(size_t size)
 {
     MemoryAccountantAllocationNode* node = findOrCreateNodeOfSize(size);
+    if (node == NULLPTR) return;
     node->allocations_++;
     node->currentAllocations_++;
     node->maxAllocations_ = (node->currentAllocations_ > node->maxAllocations_) ? node->currentAllocations_ : node->maxAllocations_;
@@ -529,6 +537,7 @@ void MemoryAccountant::alloc(size_t size)
 void MemoryAccountant::dealloc(size_t size)
 {
     MemoryAccountantAllocationNode* node = findOrCreateNodeOfSize(size);
+    if (node == NULLPTR) return;
     node->deallocations_++;
     if (node->currentAllocations_)
       node->currentAllocations_--;
@@ -638,13 +647,15 @@ struct AccountingTestMemoryAllocatorMemoryNode
     AccountingTestMemoryAllocatorMemoryNode* next_;
 };
 
-void AccountingTestMemoryAllocator::addMemoryToMemoryTrackingToKeepTrackOfSize(char* memory, size_t size)
+bool AccountingTestMemoryAllocator::addMemoryToMemoryTrackingToKeepTrackOfSize(char* memory, size_t size)
 {
     AccountingTestMemoryAllocatorMemoryNode* node = (AccountingTestMemoryAllocatorMemoryNode*) (void*) originalAllocator_->alloc_memory(sizeof(AccountingTestMemoryAllocatorMemoryNode), __FILE__, __LINE__);
+    if (node == NULLPTR) return false;
     node->memory_ = memory;
     node->size_ = size;
     node->next_ = head_;
     head_ = node;
+    return true;
 }
 
 size_t AccountingTestMemoryAllocator::removeNextNodeAndReturnSize(AccountingTestMemoryAllocatorMemoryNode* node)
@@ -682,9 +693,13 @@ size_t AccountingTestMemoryAllocator::removeMemoryFromTrackingAndReturnAllocated
 
 char* AccountingTestMemoryAllocator::alloc_memory(size_t size, const char* file, size_t line)
 {
-    accountant_.alloc(size);
     char* memory = originalAllocator_->alloc_memory(size, file, line);
-    addMemoryToMemoryTrackingToKeepTrackOfSize(memory, size);
+    if (memory == NULLPTR) return NULLPTR;
+    if (!addMemoryToMemoryTrackingToKeepTrackOfSize(memory, size)) {
+        originalAllocator_->free_memory(memory, size, file, line);
+        return NULLPTR;
+    }
+    accountant_.alloc(size);
     return memory;
 }
 
